@@ -52,11 +52,15 @@ func snap(name string, day int) *asset.Snapshot {
 	return &asset.Snapshot{Date: day0.AddDate(0, 0, day), Open: v, High: v + 1, Low: v - 1, Close: v + 0.5, Volume: float64(1000 + day)}
 }
 
+// assetNames: ordinary tickers, including ones that are prefixes of each other and ones whose
+// tail consists of characters of the ".csv" suffix.
+var assetNames = []string{"ibm", "bac", "ba", "v", "css", "a.b"}
+
 func genCase(t *rapid.T) Case {
 	c := Case{Explicit: rapid.Bool().Draw(t, "explicit"), Start: rapid.IntRange(0, 30).Draw(t, "start"), Workers: rapid.IntRange(1, 8).Draw(t, "workers"), FS: rapid.IntRange(0, 3).Draw(t, "fs") == 0}
 	n := rapid.IntRange(0, 6).Draw(t, "assets")
 	for i := 0; i < n; i++ {
-		a := AssetState{Name: fmt.Sprintf("asset%d", i), Requested: rapid.IntRange(0, 4).Draw(t, "req") > 0}
+		a := AssetState{Name: assetNames[i], Requested: rapid.IntRange(0, 4).Draw(t, "req") > 0}
 		// source: increasing days with gaps
 		if rapid.IntRange(0, 9).Draw(t, "insrc") > 0 {
 			a.InSource = true
